@@ -177,8 +177,9 @@ def pbkw_unit():
                Harness(f"unwrap_rejects_tamper_{k}", ["C06"], complete=False, bound=b + "; flip position/bit symbolic (blob, password)", functions=fn, timeout=1800),
                Harness(f"unwrap_rejects_relabel_{k}", ["C06", "C10"], complete=False, bound=b + "; header relabelled local<->secret", functions=fn)]
     for n in (0, 51, 52, 99, 100, 133):
-        hs.append(Harness(f"unwrap_short_{n}", ["C04", "C06"], complete=False, bound=f"blob length {n}, all parameter blocks", functions=fn))
-    hs += [Harness("wrap_fail_closed_h", ["C16"], functions=fn), Harness("canary_inputs_h", ["C05", "C06", "C07"], expect="fail")]
+        hs.append(Harness(f"unwrap_short_{n}", ["C04", "C06"], complete=False, bound=f"blob length {n}, all parameter blocks with a non-zero iteration count", functions=fn))
+    hs += [Harness("unwrap_zero_iterations_h", ["C04"], complete=False, bound="132-byte blob, iteration count 0, everything else symbolic", functions=fn),
+           Harness("wrap_fail_closed_h", ["C16"], functions=fn), Harness("canary_inputs_h", ["C05", "C06", "C07"], expect="fail")]
     return core_unit("awslc_pbkw", F, "units/awslc/pbkw.rs", "core::pw_wrap::verif", hs, A_RS[:3])
 
 
